@@ -74,6 +74,16 @@ def gen_behav(rng, profile):
         # surplus sort of manage_processes would keep dict order — the live cross-check showed a real kernel never ties)
         b["spawn_ms"] = rng.choice([20, 50, 150, 400]) if rng.random() < profile.get("slow_spawn", 0.15) else rng.choice([1, 1, 2, 5])
         out.append(b)
+    # a worker the daemon may not signal (it runs under another uid: os.kill raises EPERM, psutil.AccessDenied), or
+    # one whose children it may not signal: rare by default (profile knob `eperm` = share of the scenarios that have one)
+    if rng.random() < profile.get("eperm", 0.04):
+        for b in rng.sample(out, rng.choice([1, 1, len(out)])):
+            if b.get("kids") and rng.random() < 0.5:
+                b["kid_eperm"] = True
+                if rng.random() < 0.3:
+                    b["eperm"] = True
+            else:
+                b["eperm"] = True
     return out
 
 
@@ -680,7 +690,54 @@ def recipe_options_observe(rng):
     return sc, pre
 
 
-RECIPES = {"options_observe": recipe_options_observe, "sequential_reload_death": recipe_sequential_reload_death, "stopped_worker": recipe_stopped_worker, "children_vanish": recipe_children_vanish, "pattern_subset": recipe_pattern_subset, "signal_veto": recipe_signal_veto, "singleton_set": recipe_singleton_set, "on_demand_stop": recipe_on_demand_stop, "untracked_zombies": recipe_untracked_zombies,
+def recipe_unsignalable_stop(rng):
+    """an operation that FAILS part-way: one watcher has a worker the daemon is not permitted to signal (another uid: os.kill
+    raises EPERM, psutil.AccessDenied, which no except clause of the stop path catches), another one a worker that needs its
+    whole grace period.  A stop / restart / quit / rm / reload / decr of the first fails at once while the operation is still
+    busy with the second; then come requests that must be refused while it is busy and accepted once it has ended"""
+    slow = rng.choice([["ignore"], ["ignore"], ["obey", 150], ["obey", 0]])
+    g = rng.choice([200, 300, 500])
+    # spawn order = descending priority: beta takes behaviour 0, alpha behaviour 1
+    pa, pb = rng.choice([(0, 1), (0, 1), (0, 2), (-1, 0)])
+    sc = {"arb": {"warmup_ms": 0},
+          "behav": [{"term": slow, "kill_lat": 0, "spawn_ms": 1}, {"term": rng.choice([["obey", 0], ["ignore"]]), "kill_lat": 0,
+                                                                   "spawn_ms": 1, "eperm": True}],
+          "watchers": [_w("alpha", np=1, priority=pa, graceful_ms=rng.choice([100, 200])), _w("beta", np=1, priority=pb, graceful_ms=g)]}
+    if rng.random() < 0.25:
+        sc["watchers"].append(_w("c c", np=rng.choice([0, 1]), priority=rng.choice([-2, 3]), graceful_ms=100))
+        sc["behav"].append({"term": ["obey", 0], "kill_lat": 0, "spawn_ms": 1})
+    if rng.random() < 0.15:
+        sc["watchers"][0]["hooks"] = {"before_signal": {"out": rng.choice([["false"], ["false", "true"]]), "ignore": False}}
+    pre = [["start"]] + [["wake"]] * 6
+    w1 = rng.random() < 0.6
+    r = rng.random()
+    if r < 0.3:
+        first = _req("stop", "q1", waiting=w1) if rng.random() < 0.6 else _req("stop", "q1", name="*", waiting=w1)
+    elif r < 0.5:
+        first = _req("quit", "q1", waiting=w1)
+    elif r < 0.65:
+        first = _req("restart", "q1", waiting=w1) if rng.random() < 0.5 else _req("restart", "q1", name=rng.choice(["*", "?????*", "*a"]), waiting=w1)
+    elif r < 0.8:
+        first = _req(rng.choice(["stop", "restart", "rm", "reload"]), "q1", name="alpha", waiting=w1)
+    elif r < 0.9:
+        first = ["sig", "quit"]
+    else:
+        first = _req("kill", "q1", name="alpha", waiting=w1)
+    pre.append(first)
+    for i in range(rng.choice([1, 2, 3])):
+        pre += [["wake"]] * rng.choice([0, 1, 1, 2])
+        probe = rng.choice([_req("incr", "p%d" % i, name="beta"), _req("start", "p%d" % i, name="beta", waiting=rng.random() < 0.5),
+                            ["check"], _req("stop", "p%d" % i, name="alpha", waiting=True), _req("decr", "p%d" % i, name="beta"),
+                            _req("numprocesses", "p%d" % i, name="beta"), _req("set", "p%d" % i, name="beta", options={"numprocesses": 2})])
+        pre.append(probe)
+    pre += [["wake"]] * rng.choice([3, 5, 8])
+    pre.append(rng.choice([_req("incr", "z1", name="beta", waiting=True), _req("quit", "z1"), ["sig", "quit"], ["check"],
+                           _req("stop", "z1", name="alpha", waiting=True), _req("start", "z1", waiting=True)]))
+    pre += [["wake"]] * rng.choice([2, 4])
+    return sc, pre
+
+
+RECIPES = {"unsignalable_stop": recipe_unsignalable_stop, "options_observe": recipe_options_observe, "sequential_reload_death": recipe_sequential_reload_death, "stopped_worker": recipe_stopped_worker, "children_vanish": recipe_children_vanish, "pattern_subset": recipe_pattern_subset, "signal_veto": recipe_signal_veto, "singleton_set": recipe_singleton_set, "on_demand_stop": recipe_on_demand_stop, "untracked_zombies": recipe_untracked_zombies,
            "topup_start": recipe_topup_start, "reap_veto": recipe_reap_veto, "set_hook": recipe_set_hook}
 
 
@@ -718,6 +775,7 @@ def gen_scenario(rng, nops=None, profile=None):
                 op = first if (i == 0 and first) else gen_op(rng, v, "r%d" % i, profile)
             sc["ops"].append(op)
             s.k.log = []
+            s.k.reasons = []
             s.apply(op)
             steps.append(s.step_record(op))
             if "o close ctrl" in s.k.log:
